@@ -69,6 +69,8 @@ def _flat_ops(ops):
     for op in ops:
         if op[0] == "parse":
             out.append((op[1], op[2], "seq"))
+        elif op[0] == "parse_path":
+            out.append((op[1], op[2], f"by path, slot {op[3]}"))
         else:
             out += [(ti, sel, f"thread/{op[2]}") for ti, sel in op[1]]
     return out
@@ -155,7 +157,7 @@ def variant(draw, base_spec, all_specs) -> tuple[str, str]:
     """Returns (kind, text) — a chart text related to ``base_spec``."""
     kind = draw(st.sampled_from(["res", "res", "sustain", "content", "invalid_forced", "invalid_nores",
                                  "invalid_header", "invalid_dup_tempo", "invalid_midway", "invalid_midway",
-                                 "song_dup", "song_dup", "song_perm", "same", "unrelated"]))
+                                 "song_dup", "song_dup", "song_perm", "same", "unrelated", "same_size", "same_size"]))
     spec = copy.deepcopy(base_spec)
     if kind == "res":
         res = spec["res"]
@@ -182,6 +184,16 @@ def variant(draw, base_spec, all_specs) -> tuple[str, str]:
                                  for it in items]
         spec["events"] = [[e[0], e[1] + "!"] for e in spec["events"]]
         spec["song"] = [["Name", '"other"'], ["Offset", "5"], ["Player2", "rhythm"], ["Genre", '"pop"']]
+    elif kind == "same_size":
+        # another chart whose text has exactly the same length (one lane digit changed)
+        for h, items in spec["tracks"].items():
+            for it in items:
+                if it[1] == "N" and it[2] < 4:
+                    it[2] += 1
+                    break
+            else:
+                continue
+            break
     elif kind in ("song_dup", "song_perm"):
         # [Song] variants: the same fields on other lines, or a field written TWICE (the first line wins;
         # which line that is must not depend on what was parsed before)
@@ -281,6 +293,35 @@ def drive_machine(ctx: Ctx) -> None:
         def parse(self, data, i):
             ti = i % len(self.case["texts"])
             self.case["ops"].append(["parse", ti, self._sel(data, ti)])
+
+        @rule(data=st.data(), i=st.integers(0, 7), slot=st.integers(0, 1))
+        def parse_path(self, data, i, slot):
+            ti = i % len(self.case["texts"])
+            # only texts without CR / BOM oddities are guaranteed to read back identically through a file
+            if "\r" in self.case["texts"][ti] or not self.case["texts"][ti].isascii():
+                return
+            self.case["ops"].append(["parse_path", ti, self._sel(data, ti), slot])
+
+        @rule(data=st.data(), i=st.integers(0, 7), slot=st.integers(0, 1), again=st.booleans())
+        def replace_file_same_size(self, data, i, slot, again):
+            # the file at one path is replaced by ANOTHER chart of exactly the same length (and, through the
+            # worker, the same modification time) and read again by path
+            import re
+            ti = i % len(self.case["texts"])
+            a = self.case["texts"][ti]
+            if "\r" in a or not a.isascii() or len(self.case["texts"]) >= 9:
+                return
+            m = re.search(r" = N ([0-3]) ", a)
+            if not m:
+                return
+            b = a[:m.start(1)] + str(int(m.group(1)) + 1) + a[m.end(1):]
+            if b not in self.case["texts"]:
+                self.case["texts"].append(b)
+            tj = self.case["texts"].index(b)
+            sel = self._sel(data, ti)
+            self.case["ops"] += [["parse_path", ti, sel, slot], ["parse_path", tj, sel, slot]]
+            if again:
+                self.case["ops"].append(["parse_path", ti, sel, slot])
 
         @rule(data=st.data(), idx=st.lists(st.integers(0, 7), min_size=2, max_size=4),
               mode=st.sampled_from(os.environ.get("CPV_C17_MODES", "coop,coop,os").split(",")),
